@@ -154,6 +154,20 @@ func NewLinearFeeFunction(maxFeeRate chainfee.SatPerKWeight,
 		return nil, fmt.Errorf("estimate initial fee rate: %w", err)
 	}
 
+	// The starting fee rate must not exceed the ending fee rate, which is
+	// the max fee rate allowed by the budget and the configured max fee
+	// rate. This could happen when the caller specifies a starting fee
+	// rate, or when the min relay fee rate is used for a far away
+	// deadline. Similar to how the estimated fee rate is capped, we cap
+	// it at the ending fee rate.
+	if start > l.endingFeeRate {
+		log.Warnf("Starting fee rate %v exceeds ending fee rate %v, "+
+			"using ending fee rate instead", start,
+			l.endingFeeRate)
+
+		start = l.endingFeeRate
+	}
+
 	// Calculate how much fee rate should be increased per block.
 	end := l.endingFeeRate
 
